@@ -857,6 +857,13 @@ func (c *CEnv) callFn(e *Expr) cv {
 		return cv{V: app(SString, "str.from_code", c.term(e.Args[0]))}
 	case "strlt":
 		return cv{V: app(SBool, "str.<", c.term(e.Args[0]), c.term(e.Args[1]))}
+	case "unm_Dyn":
+		_, unm := c.x.e.marshalDyn()
+		return cv{V: app("Dyn", unm, c.term(e.Args[0]))}
+	case "unm_LatestBlockHeight":
+		t := c.x.e.msgTypeByName("LatestBlockHeight")
+		_, unm := c.x.e.marshalFn(t)
+		return cv{V: app(c.x.e.sortOf(t), unm, c.term(e.Args[0])), T: t}
 	case "getraw":
 		return cv{V: app(SString, "getraw", c.term(e.Args[0]))}
 	case "pow10", "abs_", "max_", "min_", "tquo", "trem", "u64be", "u64dec", "fill32":
